@@ -436,6 +436,74 @@ func runC13WSIdle(pingMs int) {
 	emit(M{"op": "c13wsidle", "ping_ms": pingMs, "out": out})
 }
 
+// runC13BusyStore: a session on the SQLite handler whose store is busy (the pool's only connection is held, so the
+// bulk inserter waits in its first batch): the insert queue (2 × EventBulkInsertNum) fills after a few EVENTs and
+// the next one waits for a slot.  Cancelling the session at that moment must still end it promptly.
+func runC13BusyStore(nEvents int) {
+	pre, _ := repoGoroutines()
+	c13DBCounter++
+	db, err := sql.Open("sqlite3", fmt.Sprintf("file:c13busy%d_%d?mode=memory&cache=shared", os.Getpid(), c13DBCounter))
+	if err != nil {
+		panic(err)
+	}
+	db.SetMaxOpenConns(1)
+	hctx, hcancel := context.WithCancel(context.Background())
+	h, err := sqlite.NewSQLiteHandler(hctx, db, &sqlite.SQLiteHandlerOption{EventBulkInsertNum: 1, MaxLimit: sqlite.NoLimit})
+	if err != nil {
+		panic(err)
+	}
+	hold, err := db.Conn(context.Background()) // the store is busy from now on
+	if err != nil {
+		panic(err)
+	}
+	ctx, cancel := context.WithCancel(context.Background())
+	recv := make(chan mocrelay.ClientMsg)
+	send := make(chan mocrelay.ServerMsg, 64)
+	ended := make(chan struct{})
+	go func() { h.ServeNostr(ctx, send, recv); close(ended) }()
+	go func() { // the peer keeps reading
+		for {
+			select {
+			case <-send:
+			case <-ended:
+				return
+			}
+		}
+	}()
+	g := &EvGen{r: NewRng(uint64(nEvents))}
+	handed := 0
+	for i := 0; i < nEvents; i++ {
+		e := g.Event()
+		e.Kind, e.Tags = 1, nil
+		select {
+		case recv <- &mocrelay.ClientEventMsg{Event: e}:
+			handed++
+		case <-time.After(300 * time.Millisecond): // the handler is waiting for a queue slot: cancel now
+			i = nEvents
+		}
+	}
+	cancel()
+	out := M{"handed": handed, "returned": true}
+	select {
+	case <-ended:
+	case <-time.After(3 * time.Second):
+		out["returned"] = false
+	}
+	hold.Close()
+	hcancel()
+	select {
+	case <-ended:
+	case <-time.After(10 * time.Second):
+	}
+	left, sample := waitGoroutines(pre, 10*time.Second)
+	out["leftover"] = left
+	if left > 0 {
+		out["sample"] = sample
+	}
+	db.Close()
+	emit(M{"op": "c13busy", "events": nEvents, "out": out})
+}
+
 func init() {
 	props["c13"] = propRunner{
 		gen: func(r *Rng, n int, tier string) {
@@ -450,6 +518,10 @@ func init() {
 			}
 			for _, ping := range []int{10, 25} {
 				runC13WSIdle(ping)
+				done++
+			}
+			for _, k := range []int{3, 4, 6} {
+				runC13BusyStore(k)
 				done++
 			}
 			for done < n && c13Stuck < 6 && c13Leaks < 12 {
@@ -492,6 +564,8 @@ func init() {
 					runC13WS(int(jnum(l["send_timeout_ms"])), int(jnum(l["ping_ms"])))
 				case "c13wsidle":
 					runC13WSIdle(int(jnum(l["ping_ms"])))
+				case "c13busy":
+					runC13BusyStore(int(jnum(l["events"])))
 				}
 			}
 		},
